@@ -85,9 +85,15 @@ func (h OperatorHooksWrapper) AfterOperatorKeyRemovalInitiated(
 		if found {
 			h.keeper.SetOptOutInformation(ctx, operator)
 		} else {
-			h.keeper.operatorKeeper.DeleteOperatorAddressForChainIDAndConsAddr(
-				ctx, chainID, consAddr,
-			)
+			// the key is not in the validator set, so there is nothing to wait for:
+			// complete the removal now (forward and reverse lookups and the removal
+			// marker), otherwise it is never completed and the operator can never
+			// set a key for this chain again.
+			if err := h.keeper.operatorKeeper.CompleteOperatorKeyRemovalForChainID(
+				ctx, operator, chainID,
+			); err != nil {
+				h.keeper.Logger(ctx).Error("error completing operator key removal", "error", err)
+			}
 		}
 	}
 }
